@@ -128,6 +128,7 @@ def run_R(ck):
                      replay='props.C14_R:replay', wclass=wclass)
     ck.extra['C14_failure_classes'] = {f'{k[0]} / {k[1]}': v['n'] for k, v in sorted(groups.items())}
     ck.exhaustive = True
+    run_large(ck)
 
 
 def _work(task):
@@ -143,3 +144,116 @@ def _work(task):
             x['wclass'] = H.wclass(x, env.t_key)
         return task, counters, out
     return H.work(task)
+
+
+# ------------------------------------------------------------------------------------------------ large collections (R, bounded)
+# The symbolic part decides every key VALUE for sizes 0..4 (6) and the histories above stay small; an implementation may switch
+# strategy with the size (binary search, fast paths), so the methods UPDATE / MEM / GET call are also run on LARGE collections:
+# sizes around every power of two up to 65, operand key below all / between every neighbour class / above all / equal to the first,
+# a middle and the last element, against a reference sorted list.
+LARGE_SIZES = (5, 6, 7, 8, 9, 12, 15, 16, 17, 31, 32, 33, 64, 65)
+
+
+def _large_keys(keytype, n):
+    from pytezos.michelson import types as T
+    if keytype == 'int':
+        return [T.IntType(2 * i - n) for i in range(n)], lambda j: T.IntType(2 * j - n - 1)          # gaps: odd numbers
+    if keytype == 'string':
+        return [T.StringType(f'k{i:03d}') for i in range(n)], lambda j: T.StringType(f'k{j - 1:03d}~' if j > 0 else 'a')
+    if keytype == 'pair':
+        mk = lambda a, b: T.PairType.from_comb([T.IntType(a), T.StringType(b)])
+        return [mk(i // 2, 'x' if i % 2 == 0 else 'z') for i in range(n)], \
+            lambda j: mk((j - 1) // 2, ('y' if (j - 1) % 2 == 0 else 'zz')) if j > 0 else mk(-1, 'x')
+    raise ValueError(keytype)
+
+
+def _large_probes(n):
+    """(label, gap index j: a NEW key sorted between element j-1 and j) and (label, index i of an EXISTING key)"""
+    gaps = sorted({0, 1, n // 2, n - 1, n})
+    hits = sorted({0, 1, n // 2, n - 2, n - 1})
+    return gaps, hits
+
+
+def large_case(kind, keytype, n, probe, idx):
+    """run one probe on the real types; returns list of (clause, detail)"""
+    from pytezos.michelson import types as T
+    keys, gapkey = _large_keys(keytype, n)
+    vals = [T.NatType(i) for i in range(n)]
+    x = gapkey(idx) if probe == 'new' else keys[idx]
+    ref = list(keys)
+    out = []
+    shown = lambda ks: [str(k.to_python_object() if not isinstance(k, T.PairType) else tuple(c.to_python_object() for c in k)) for k in ks]
+    if kind == 'set':
+        s = T.SetType.from_items(list(keys))
+        if s.contains(x) != (probe == 'hit'):
+            out.append(('ensures.mem', f'MEM of {"an existing" if probe == "hit" else "a new"} key (position {idx} of {n}) gives {s.contains(x)}'))
+        a = s.add(x)
+        want = ref if probe == 'hit' else ref[:idx] + [x] + ref[idx:]
+        if list(a.items) != want:
+            out.append(('ensures.update_true', f'UPDATE True at position {idx} of a set of {n}: iteration order {shown(a.items)[:70]} is not the sorted set'))
+        r = s.remove(x)
+        want = ref if probe == 'new' else ref[:idx] + ref[idx + 1:]
+        if list(r.items) != want:
+            out.append(('ensures.update_false', f'UPDATE False at position {idx} of a set of {n}: {shown(r.items)[:70]}'))
+        if list(s.items) != ref:
+            out.append(('frame.operand', 'the operand set was modified'))
+        for res in (a, r):
+            if len(res) != len(list(res.items)):
+                out.append(('ensures.size', 'SIZE disagrees with the number of elements'))
+    else:
+        m = T.MapType.from_items(list(zip(keys, vals)))
+        g = m.get(x)
+        if (g is None) != (probe == 'new') or (probe == 'hit' and g != vals[idx]):
+            out.append(('ensures.get', f'GET at position {idx} of a map of {n} gives {g}'))
+        if m.contains(x) != (probe == 'hit'):
+            out.append(('ensures.mem', f'MEM at position {idx} of a map of {n} gives {m.contains(x)}'))
+        nv = T.NatType(999)
+        prev, u = m.update(x, nv)
+        want = [(k, (nv if i == idx else v)) for i, (k, v) in enumerate(zip(keys, vals))] if probe == 'hit' \
+            else list(zip(keys, vals))[:idx] + [(x, nv)] + list(zip(keys, vals))[idx:]
+        if [(k, v) for k, v in u.items] != want:
+            out.append(('ensures.update_some', f'UPDATE (Some v) at position {idx} of a map of {n}: keys {shown([k for k, _ in u.items])[:70]}'))
+        if (prev is None) != (probe == 'new') or (probe == 'hit' and prev != vals[idx]):
+            out.append(('ensures.get_and_update_prev', f'GET_AND_UPDATE previous value at position {idx} of {n}: {prev}'))
+        prev, d = m.update(x, None)
+        want = list(zip(keys, vals)) if probe == 'new' else list(zip(keys, vals))[:idx] + list(zip(keys, vals))[idx + 1:]
+        if [(k, v) for k, v in d.items] != want:
+            out.append(('ensures.update_none', f'UPDATE None at position {idx} of a map of {n}: keys {shown([k for k, _ in d.items])[:70]}'))
+        if [(k, v) for k, v in m.items] != list(zip(keys, vals)):
+            out.append(('frame.operand', 'the operand map was modified'))
+    return out
+
+
+def replay_large(case):
+    try:
+        f = large_case(case['kind'], case['keytype'], case['n'], case['probe'], case['idx'])
+    except Exception as e:   # noqa
+        return True, f'{type(e).__name__}: {e}'
+    f = [x for x in f if x[0] == case.get('clause')] or f
+    if f:
+        return True, '; '.join(d for _, d in f)
+    return False, f'{case["kind"]} of {case["n"]} {case["keytype"]} keys, {case["probe"]} key at position {case["idx"]}: agrees with the reference sorted collection'
+
+
+def run_large(ck):
+    n_eval = 0
+    ck.bound('R.large_collections', f'sizes {list(LARGE_SIZES)} x key types int/string/pair x operand below all, between neighbours (start, middle, end), '
+                                    'above all, equal to first/second/middle/last-but-one/last element')
+    for kind in ('set', 'map'):
+        for keytype in ('int', 'string', 'pair'):
+            for n in LARGE_SIZES:
+                gaps, hits = _large_probes(n)
+                for probe, idxs in (('new', gaps), ('hit', hits)):
+                    for idx in idxs:
+                        case = dict(kind=kind, keytype=keytype, n=n, probe=probe, idx=idx, large=True)
+                        try:
+                            f = large_case(kind, keytype, n, probe, idx)
+                        except Exception as e:   # noqa
+                            f = [('safety.no_exception', f'{type(e).__name__}: {e}')]
+                        n_eval += 1
+                        for clause, detail in f:
+                            ck.violation(OID + 'large::' + clause, f'{kind} over {keytype} keys: {detail}', case=dict(case, clause=clause),
+                                         replay='props.C14_R:replay_large', wclass=f'large {kind} {keytype} {clause} {probe}@{"end" if idx >= n - 1 else idx}')
+                ck.evaluate(f'large {kind} {keytype} n={n}', n=len(gaps) + len(hits),
+                            sample=dict(kind=kind, keytype=keytype, n=n) if (kind, keytype, n) == ('set', 'int', 9) else None)
+    ck.note(f'C14-R large collections: {n_eval} probes')
